@@ -17,9 +17,9 @@
 (***************************************************************************)
 EXTENDS Integers, Sequences, FiniteSets, TLC
 
-CONSTANTS Vals, MaxSize, Caps
-VARIABLES cap, ex, el
-avars == <<cap, ex, el>>
+CONSTANTS Vals, MaxSize, Caps, Keeps
+VARIABLES cap, keep, ex, el
+avars == <<cap, keep, ex, el>>
 
 Cut(s) == IF cap = 0 \/ Len(s) <= cap THEN s ELSE SubSeq(s, 1, cap)
 Ins(s, p, v) == SubSeq(s, 1, p) \o <<v>> \o SubSeq(s, p + 1, Len(s))         \* before position p (0-based)
@@ -27,19 +27,20 @@ Era(s, a, b) == SubSeq(s, 1, a) \o SubSeq(s, b + 1, Len(s))                  \* 
 Rsz(s, n) == IF n <= Len(s) THEN SubSeq(s, 1, n) ELSE s \o [i \in 1..(n - Len(s)) |-> 0]
 C == {0, 1}
 
-Init == cap \in Caps /\ ex = [c \in C |-> FALSE] /\ el = [c \in C |-> <<>>]
-Fix == UNCHANGED cap
+Init == cap \in Caps /\ keep \in Keeps /\ ex = [c \in C |-> FALSE] /\ el = [c \in C |-> <<>>]
+Fix == UNCHANGED <<cap, keep>>
 Set(c, s) == el' = [el EXCEPT ![c] = Cut(s)] /\ UNCHANGED ex /\ Fix
 
 Create(c) == ~ex[c] /\ ex' = [ex EXCEPT ![c] = TRUE] /\ el' = [el EXCEPT ![c] = <<>>] /\ Fix
 \* constructor from a range / initializer list
-CreateFrom(c, s) == ~ex[c] /\ ex' = [ex EXCEPT ![c] = TRUE] /\ el' = [el EXCEPT ![c] = Cut(s)] /\ Fix
+\* (the keep flavour is the older interface: no range / list constructor, no erase)
+CreateFrom(c, s) == ~keep /\ ~ex[c] /\ ex' = [ex EXCEPT ![c] = TRUE] /\ el' = [el EXCEPT ![c] = Cut(s)] /\ Fix
 Destroy(c) == ex[c] /\ ex' = [ex EXCEPT ![c] = FALSE] /\ el' = [el EXCEPT ![c] = <<>>] /\ Fix
 PushBack(c, v) == ex[c] /\ Set(c, Append(el[c], v))
 EmplaceBack(c, v) == ex[c] /\ Set(c, Append(el[c], v))
 Insert(c, p, v) == ex[c] /\ cap = 0 /\ p \in 0..Len(el[c]) /\ Set(c, Ins(el[c], p, v))
 Emplace(c, p, v) == ex[c] /\ cap = 0 /\ p \in 0..Len(el[c]) /\ Set(c, Ins(el[c], p, v))
-Erase(c, a, b) == ex[c] /\ a \in 0..Len(el[c]) /\ b \in a..Len(el[c]) /\ Set(c, Era(el[c], a, b))
+Erase(c, a, b) == ~keep /\ ex[c] /\ a \in 0..Len(el[c]) /\ b \in a..Len(el[c]) /\ Set(c, Era(el[c], a, b))
 \* erase(pos): exactly the element at pos goes, as in std::vector
 EraseAt(c, a) == ex[c] /\ cap = 0 /\ a \in 0..(Len(el[c]) - 1) /\ Set(c, Era(el[c], a, a + 1))
 PopBack(c) == ex[c] /\ cap = 0 /\ el[c] # <<>> /\ Set(c, SubSeq(el[c], 1, Len(el[c]) - 1))
@@ -47,7 +48,12 @@ Resize(c, n) == ex[c] /\ Set(c, Rsz(el[c], n))
 Reserve(c, n) == ex[c] /\ cap = 0 /\ Set(c, el[c])
 Clear(c) == ex[c] /\ Set(c, <<>>)
 CopyCtor(c, d) == c # d /\ ~ex[c] /\ ex[d] /\ ex' = [ex EXCEPT ![c] = TRUE] /\ el' = [el EXCEPT ![c] = el[d]] /\ Fix
-MoveCtor(c, d) == c # d /\ ~ex[c] /\ ex[d] /\ ex' = [ex EXCEPT ![c] = TRUE] /\ el' = [el EXCEPT ![c] = el[d], ![d] = <<>>] /\ Fix
+\* keep = TRUE: the flavour whose move constructor leaves the source's (moved-from) elements in place;
+\* their number is kept, their values are unspecified (the trace layer adopts what is observed)
+MoveCtor(c, d) == c # d /\ ~ex[c] /\ ex[d] /\ ex' = [ex EXCEPT ![c] = TRUE] /\ el' = [el EXCEPT ![c] = el[d], ![d] = IF keep THEN el[d] ELSE <<>>] /\ Fix
+\* trace layer, keep = TRUE: the values of the moved-from elements are what was observed (their number is fixed)
+MoveCtorAdopt(c, d, oc) == c # d /\ ~ex[c] /\ ex[d] /\ ex' = [ex EXCEPT ![c] = TRUE] /\ Fix
+                           /\ el' = [el EXCEPT ![c] = el[d], ![d] = IF Len(oc) = Len(el[d]) THEN oc ELSE el[d]]
 CopyAssign(c, d) == ex[c] /\ ex[d] /\ el' = [el EXCEPT ![c] = el[d]] /\ UNCHANGED ex /\ Fix
 MoveAssign(c, d) == ex[c] /\ ex[d] /\ el' = (IF c = d THEN el ELSE [el EXCEPT ![c] = el[d], ![d] = <<>>]) /\ UNCHANGED ex /\ Fix
 \* queries (state unchanged; answers from el)
@@ -122,7 +128,8 @@ DeallocStep(L, b) == [blk |-> [k \in DOMAIN L.blk \ {b} |-> L.blk[k]], dead |-> 
 HoldsExactly(L, b, s) ==
    IF b = -1 THEN s = <<>>
    ELSE /\ b \in DOMAIN L.blk
-        /\ \A i \in 0..(L.blk[b] - 1) : IF i < Len(s) THEN SlotOf(L, b, i) = [st |-> "live", v |-> s[i + 1]]
+        /\ \A i \in 0..(L.blk[b] - 1) : IF i < Len(s) THEN \/ SlotOf(L, b, i) = [st |-> "live", v |-> s[i + 1]]
+                                                           \/ keep /\ SlotOf(L, b, i).st = "moved"
                                                       ELSE SlotOf(L, b, i).st = "raw"
 NothingLeft(L) == DOMAIN L.blk = {} /\ \A k \in DOMAIN L.slot : L.slot[k].st = "raw"
 =============================================================================
